@@ -265,9 +265,13 @@ def make_run_tunion(W, shape, known_active=None):
             def e3(x: type[Z], y: object):
                 LOG.append((4,))
                 return 4
+            def hn(x: None):
+                LOG.append((5,))
+                return 5
             ov = Ovld()
             ov.register(hu, priority=0)
             ov.register(ho, priority=-1)
+            ov.register(hn, priority=0)
             for e in ([e1], [e2], [e3], [e1, e2])[extra - 1] if extra else []:
                 ov.register(e, priority=0)
             return ov, LOG
@@ -275,11 +279,18 @@ def make_run_tunion(W, shape, known_active=None):
         k = 1 + ctx.choose("extra", 4)
         var_f, L1 = mk(k)
         ok, trace = True, []
-        for name, a in (("K0", W.K[0]), ("K1", W.K[1]), ("K2", W.K[2]), ("K1()", W.inst[1]), ("K0()", W.inst[0])):
+        # (besides the harness classes and instances: every kind of argument the dispatcher treats specially once some method is on type[...])
+        for name, a in (("K0", W.K[0]), ("K1", W.K[1]), ("K2", W.K[2]), ("K1()", W.inst[1]), ("K0()", W.inst[0]), ("None", None), ("int", int),
+                        ("typing.Any", typing.Any), ("list[int]", list[int]), ("3", 3), ("type", type), ("typing.List", typing.List)):
             b = full_outcome(lambda: base_f.dispatch(a), L0)
             v = full_outcome(lambda: var_f.dispatch(a), L1)
             trace.append(dict(arg=name, without_extra=b, with_extra=v))
             if b != v:
+                ok = False
+            # closed form for the arguments whose meaning does not depend on the harness classes (a difference between two functions that
+            # both carry a type[...] method would not show a defect common to both)
+            fixed = {"None": 5, "3": 1, "int": 1, "list[int]": 1, "type": 1}.get(name)
+            if fixed is not None and (b != ([fixed], ["ret", repr(fixed)]) or v != b):
                 ok = False
         return Verdict(ok, (), dict(family="type[...] in a union + a non-applicable type[...] method", union=f"type[K{ta}] | K{tb}", extra=k, trace=trace),
                        ["tunion"], nontrivial=True)
